@@ -23,7 +23,7 @@ theorem C16_roundtrip (v : List α) :
     (v ≠ [] → padLen v.length < 8) ∧ (v = [] → padLen v.length = 8) := by
   refine ⟨?_, ?_, ?_, ?_⟩
   · have h := packLoop_spec v 0 ({ feature := [], acc := zeros, part := 0 } : PState α)
-      { len := by simp [zeros, lanes], z0 := fun _ => ⟨rfl, rfl⟩, zfull := by omega, zpart := by omega }
+      { len := by simp [zeros, lanes, Gen.FEATURE_LANES_SIZE, Gen.FEATURE_LANES_SIZE], z0 := fun _ => ⟨rfl, rfl⟩, zfull := by omega, zpart := by omega }
     simpa [unpack, pack, finish, cur] using h
   · unfold padLen; split <;> omega
   · intro hv
